@@ -46,8 +46,11 @@ Definition fdel (i : N) (fs : files) : files := filter (fun e => negb (fst e =? 
 Inductive outcome :=
   | OOpenErr                                  (* connection error, status <> 200, unreadable / unsafe path *)
   | OBody (data : bytes) (read_err : bool)    (* body bytes delivered, then EOF or an error *)
-  | ORenameFail (data : bytes).               (* complete body, but the pending file cannot replace the
+  | ORenameFail (data : bytes)                (* complete body, but the pending file cannot replace the
                                                  list's file ([CloseReplace] fails) nor be cleaned up *)
+  | OWriteFail (data : bytes) (read_err : bool) (cap : N).
+                                              (* body bytes delivered as with [OBody], but the pending file
+                                                 takes [cap] bytes in all, then its writes fail *)
 
 Record engine := { e_block : list (N * bytes); e_allow : list (N * bytes) }.
 
@@ -115,6 +118,17 @@ Section Refresh.
         (* whatever was parsed: [CloseReplace] fails and the result [ok] is
            cleared with it, or [Cleanup] of the vanished pending file fails *)
         (failed, fs)
+    | OWriteFail data re cap =>
+        (* the parser writes into the pending file itself: a failing write is
+           the parser's error, [ok] is false, [finalizeUpdate] cleans the
+           pending file up and hands the error on *)
+        match parse_w crc cap data re with
+        | (_, Some _, _) => (failed, fs)
+        | (st, None, _) =>
+            if p_sum st =? f_sum l then (same, fs)
+            else ({| u_updated := true; u_err := false; u_list := filled l st |},
+                  fset (f_id l) (output st) fs)
+        end
     end.
 
   Fixpoint update_all (ls : list flist) (oc : N -> outcome) (fs : files) : list upd * files :=
